@@ -348,3 +348,7 @@ H("C02", "html/layout", "VxH_C02_nested_padding", mode="real", reach=["laid-out"
 H("C15", "text", "VxH_C15_lang_quotes", reach=["looked-up"], bounds="GetLangQuotes on the real entries of 4 related keys ('', fr, fr_CH, de) for 5 language tags; every visiting order of that sub-table in two independent runs (the full table of ~120 entries is out of reach of permutation)", quick={"shards": 4})
 H("C19", "css/counters", "VxH_C19_explicit_range_zero", reach=["rendered"], bounds="symbolic / alphabetic styles of 2 symbols with the explicit range -10..10; value -6..6")
 H("C07", "html/boxes", "VxH_C07_span_attributes", reach=["read"], bounds="colspan / rowspan / span attribute text of 0..5 (thorough 8) symbolic printable ASCII bytes", quick={"shards": 6})
+for _p in ("C01", "C16"):
+    H(_p, "html/document", "VxH_C01_draw_inline_levels", reach=["laid-out", "drawn"], bounds="<p><x-i><x-c></x-c></x-i></p>: x-i display in 8 values (inline-block / -flex / -grid / -table, inline, block, flex, grid) x 5 stacking situations (none, relative, opacity, relative + z-index, float); layout with the VxAhem font model, painting on the recording canvas", quick={"maxsteps": 200000000, "shards": 6})
+for _p in ("C15", "C14"):
+    H(_p, "html/document", "VxH_C15_repaint_page", reach=["laid-out", "drawn"], bounds="one page with marks in {none, crop, cross, crop cross}, bleed 0 / 10px, page background or not; painted three times. The crop / cross marks are drawn through text/template, which the engine cannot execute: those 12 inputs are run natively only", native_fallback=["unsupported"], quick={"maxsteps": 200000000})
